@@ -242,6 +242,10 @@ class RunDT(R.Run):
         obs['now'] = _builtin_int(_NOW[0]) - ORIGIN_EPOCH
         obs['man'] = sorted([pint(t.point), t.tdef.name] for t in pool.get_tasks() if t.is_manual_submit)
         obs['trig_now'] = sorted([pint(t.point), t.tdef.name] for t in pool.tasks_to_trigger_now)
+        for ev in self.exp_events:
+            # (an expiry whose `expired` output was never processed has no recorded effect)
+            for key in ('pooled_kids', 'added', 'removed', 'sat'):
+                ev.setdefault(key, [])
         obs['exp'] = self.exp_events
         obs['exp_x'] = self.exp_extra
         self.exp_events = []
